@@ -71,6 +71,9 @@ def run(chk):
                     env.append((names[0], j, {"jsonrpc", "method", "id"} | ({"params"} if "params" in r else set())))
                     if names[1]:
                         env.append((names[1], {"id": 1}, {"jsonrpc", "id", "result"}))
+                        # the envelope's id is a required member: a response whose id is None (JSON-RPC: the request's id could not be
+                        # determined) still writes it, as null
+                        env.append((names[1], {"id": None}, {"jsonrpc", "id", "result"}))
                 else:
                     j = {}
                     if "params" in r:
